@@ -49,12 +49,13 @@ def mk_unit(be, tls, tier, table_ops=True):
     unchanged_except = lambda: conj(lambda i: '(g_first != %d ==> (%s == __CPROVER_old(%s) && %s == __CPROVER_old(%s)))' % (i, K(i), K(i), C(i), C(i)))
     cl = [('obj', '__CPROVER_requires(__CPROVER_rw_ok($this, sizeof(struct %s)))' % BS),
           ('g_first_is_least_free_slot', '__CPROVER_requires(%s)' % first_free),
-          ('full_table_changes_nothing_and_returns_no_entry', '__CPROVER_ensures(g_first == 64 ==> ((unsigned long)$ret == 0 && %s))' % conj(lambda i: '(%s == __CPROVER_old(%s) && %s == __CPROVER_old(%s))' % (K(i), K(i), C(i), C(i)))),
+          ('noabort_pre', '__CPROVER_requires(g_noabort ==> g_first < 64)'),
+          ('full_table_is_refused_never_entry_point_0', '__CPROVER_ensures(g_first < 64 && (unsigned long)$ret != 0)'),
           ('least_free_slot_taken', '__CPROVER_ensures(g_first < 64 ==> (%s == $0 && %s == $1))' % (K('g_first'), C('g_first'))),
           ('entry_point_of_that_slot', '__CPROVER_ensures(g_first < 64 ==> (void *)$ret == SPEC_TRAMP[g_first])'),
           ('other_slots_unchanged', '__CPROVER_ensures(%s)' % unchanged_except()),
           ('frame', '__CPROVER_assigns(__CPROVER_object_whole($this))')]
-    h = '  struct %s be; unsigned long in_first; g_first = in_first; uintptr_t in_key, in_cb;\n  void *r = (void *)$ROOT(&be, (void *)in_key, (void *)in_cb);\n' % BS
+    h = '  struct %s be; unsigned long in_first; g_first = in_first; uintptr_t in_key, in_cb; _Bool in_noabort; g_noabort = in_noabort;\n  void *r = (void *)$ROOT(&be, (void *)in_key, (void *)in_cb);\n' % BS
     h += '  /* the 64 entry points are pairwise distinct function addresses */\n'
     post = 'void *const SPEC_TRAMP[64] = { $FTABLE(callback_trampoline) };\n'
     pick = lambda tu, fn: find_func(tu, 'impl_register_callback', 'rlbox::' + cls)
@@ -173,8 +174,9 @@ def interceptor_unit(tier):
 
 def units(tier):
     us = [mk_unit('noop', 'lib', tier), mk_unit('noop', 'embedder', tier, table_ops=(tier != 'quick')), interceptor_unit(tier)]
-    if tier != 'quick':
-        us += [mk_unit('dylib', 'lib', tier), mk_unit('dylib', 'embedder', tier)]
+    # dylib backend: the dispatch functions (trampolines, get_executed, invoke save/restore) on every change; its slot-table
+    # functions (the same text as the no-op backend's, 64 unrolled lambdas each) in the thorough tier
+    us += [mk_unit('dylib', 'lib', tier, table_ops=(tier != 'quick')), mk_unit('dylib', 'embedder', tier, table_ops=(tier != 'quick'))]
     return us
 
 
